@@ -73,13 +73,13 @@ Qed.
 (* the two ways poly_simplify can succeed *)
 Lemma poly_simplify_cases O ts ctx r :
   poly_simplify O ts ctx = inl r ->
-  (opt_list ctx = [] /\ r = map (roundtrip (simp_vars ts ctx)) (new_self ts ctx)) \/
+  (simp_vars ts ctx = [] /\ r = map (roundtrip (simp_vars ts ctx)) (new_self ts ctx)) \/
   (exists red, reduce_polytope O (simp_vars ts ctx) (map (term_to_row (simp_vars ts ctx)) (new_self ts ctx))
                                (map (term_to_row (simp_vars ts ctx)) (opt_list ctx)) = inl red
                /\ r = map (row_to_term (simp_vars ts ctx)) red).
 Proof.
   rewrite poly_simplify_unfold. destruct (simp_vars ts ctx) as [|v l] eqn:E.
-  - intros H. left. destruct (opt_list ctx); [|discriminate]. split; [reflexivity|].
+  - intros H. left. destruct (existsb _ (opt_list ctx)); [discriminate|]. split; [reflexivity|].
     destruct (new_self ts ctx) as [|t [|t' ns]]; try discriminate; inversion H; reflexivity.
   - intros H. right. apply bind_inl in H. destruct H as [red [Hred Hr]]. inversion Hr; subst r.
     exists red. split; [exact Hred|reflexivity].
